@@ -186,10 +186,20 @@ def build(env, log, faults, order, ds, st, t_fault, cblock_ctrl=None):
         'fb': lambda: instrument(edzed.FuncBlock, log, faults)('fb', func=fb_func).connect('pb'),
     }
     if cblock_ctrl:
-        order = list(order) + ['trig']
+        # the documented constructors Event.shutdown() / Event.abort() (docs/events.rst), used the documented way:
+        # as on_success / on_error events of an output block - which is driven by a combinational block, so the
+        # control event is sent from within the simulator task
+        order = list(order) + ['killer', 'trig']
+
+        def killer_func(value):
+            if cblock_ctrl == 'abort':
+                raise RuntimeError('killer failed')
+            return 'ok'
+        makers['killer'] = lambda: instrument(edzed.OutputFunc, log, faults)(
+            'killer', func=killer_func, on_success=edzed.Event.shutdown(), on_error=edzed.Event.abort())
         makers['trig'] = lambda: instrument(edzed.FuncBlock, log, faults)(
             'trig', func=lambda x: x == 'boom',
-            on_output=edzed.Event('_ctrl', cblock_ctrl, efilter=lambda d: d['value'])).connect('pb')
+            on_output=edzed.Event('killer', 'put', efilter=lambda d: d['value'])).connect('pb')
     blocks = {}
     for n in order:
         blocks[n] = makers[n]()
